@@ -1,14 +1,40 @@
 #!/usr/bin/env python3
 """Validate the Lean calendar SPECIFICATION (Spec/Calendar.lean, through the driver's `spec.day` op)
 against two references that share no code with chrono or with the model: Python's `datetime.date`
-(proleptic Gregorian, years 1..9999: every day) and GNU `date -u -d` (a sample incl. years < 1 is not
-supported by either, so the negative range is covered by the 400-year periodicity theorem only).
+(proleptic Gregorian, years 1..9999: every day) and GNU `date -u -d` (a sample; years < 1 are not
+supported by either, so the other years are carried by theorem `Chrono.Props.C01.spec_coherent`: for
+every integer year the closed form advances by the leap rule's year length and by 146097 per 400 years,
+and the cumulative month table is the running sum of the month lengths).
+Since 2026-09-30 also the ISO 8601 week-date SPECIFICATION (Spec/IsoSpec.lean and `isoThursday`, ops
+`spec.iso` / `spec.isoday`): every day of 1..9999 against `date.isocalendar()` (accessor side: Thursday
+rule) and back through `isoDayNum` / `isoWeekExists` (constructor side), and for every year the
+existence of weeks 0, 1, 52, 53, 54 and the week count against `date.fromisocalendar()`.
 Exit 0 if every compared day agrees. This validates the spec; it is not a proof obligation."""
 import datetime, os, subprocess, sys, random
 V = os.path.dirname(os.path.dirname(os.path.abspath(__file__)))
 DRV = os.path.join(V, "lean", ".lake", "build", "bin", "chrono_model")
 step = int(sys.argv[1]) if len(sys.argv) > 1 else 1
 ops, exp = [], []
+_weeks = {}
+def has_week(y, w):
+    """does ISO year y have a week w, according to Python's fromisocalendar (Thursday of the week)"""
+    if w < 1:
+        return False
+    try:
+        return datetime.date.fromisocalendar(y, w, 4).isocalendar()[:2] == (y, w)
+    except ValueError:
+        return False
+def weeks_in(y):
+    if y not in _weeks:
+        _weeks[y] = 53 if has_week(y, 53) else 52
+    return _weeks[y]
+# per year: which of the weeks 0, 1, 52, 53, 54 exist, and the number of weeks
+if step == 1:
+    for y in range(1, 10000):
+        for w in (0, 1, 52, 53, 54):
+            ops.append(f"spec.isoday {y} {w} 0")
+            mon1 = datetime.date.fromisocalendar(y, 1, 4).toordinal() - 3
+            exp.append(f"{mon1 + 7 * (w - 1)} {1 if has_week(y, w) else 0} {weeks_in(y)}")
 d = datetime.date(1, 1, 1)
 end = datetime.date(9999, 12, 31)
 one = datetime.timedelta(days=step)
@@ -17,6 +43,13 @@ while d <= end:
     y = d.year
     leap = (y % 4 == 0 and (y % 100 != 0 or y % 400 == 0))
     exp.append(f"{d.toordinal()} {d.weekday()} 1 {1 if leap else 0} {366 if leap else 365}")
+    # ISO week date of the day (accessor side) and the way back (constructor side)
+    iy, iw, iwd = d.isocalendar()
+    if 1 <= iy <= 9999:
+        ops.append(f"spec.iso {d.toordinal()}")
+        exp.append(f"{iy} {iw} {iwd - 1} {d.toordinal()} 1 {weeks_in(iy)}")
+        ops.append(f"spec.isoday {iy} {iw} {iwd - 1}")
+        exp.append(f"{d.toordinal()} 1 {weeks_in(iy)}")
     try:
         d = d + one
     except OverflowError:
@@ -28,7 +61,7 @@ out = subprocess.run([DRV], input="\n".join(ops) + "\n", capture_output=True, te
 bad = 0
 for o, e, g in zip(ops, exp, out):
     if e is None:
-        if g.split()[2] != "0":
+        if len(g.split()) < 3 or g.split()[2] != "0":
             bad += 1; print("spec accepts invalid", o, g)
     elif g != e:
         bad += 1
@@ -46,5 +79,6 @@ for _ in range(300):
     n_gnu += 1
     if (int(g[0]) - 719163) * 86400 != int(secs) or int(g[1]) != int(u) - 1:
         bad += 1; print("GNU date MISMATCH", y, m, dd, g, secs, u)
-print(f"calendar spec validation: {len(ops)} days vs python datetime, {n_gnu} vs GNU date, mismatches={bad}")
+n_iso = sum(1 for o in ops if o.startswith("spec.iso"))
+print(f"calendar spec validation: {len(ops) - n_iso} days vs python datetime, {n_iso} ISO week-date lines vs python isocalendar/fromisocalendar, {n_gnu} vs GNU date, mismatches={bad}")
 sys.exit(1 if bad else 0)
